@@ -128,7 +128,9 @@ def execute(case: dict) -> dict:
                 await resp.prepare(request)
                 k = rs.get("writes", 2)
                 last = b""
-                if not (empty or request.method == "HEAD"):
+                # (the handler writes its body whatever the method / status: a HEAD, 204 or 304 response is cut down to
+                # its header section by the server, not by every application)
+                if True:
                     step = max(1, -(-len(resp_body) // max(1, k)))
                     pieces = [resp_body[i:i + step] for i in range(0, len(resp_body), step)]
                     if rs.get("eof_data") and pieces:
